@@ -19,11 +19,11 @@ ASSUMPTIONS = ["file objects: read(n) returns min(n, remaining) bytes; peek(n) r
 
 
 def _open_hook(I, args, kwargs, st, node):
-    from vf.pyvc.models import new_file
-    from vf.pyvc.values import Unsupported
-    if "file_content" not in st.ghost:
-        raise Unsupported("open() of an unmodelled file")
-    return [("val", new_file(I, st, args[1] if len(args) > 1 else "r", st.ghost["file_content"], args[0]), st)]
+    fn, mod, cls = I.index.functions["vf.specs.stubs.open_model"]
+    return I.call_function(fn, mod, cls, list(args), dict(kwargs), st, "vf.specs.stubs.open_model")
+
+
+OPEN = {"a816.parse.nodes.open": "vf.specs.stubs.open_model"}
 
 
 def _havoc(I, st):
@@ -72,10 +72,10 @@ def shape_node(B):
 
 def cases(E):
     cs = [Case(H + "include_ips_header_contract", "any content without PATCH", lambda B: {"path": "p.ips", "resolver": shapes.resolver(B), "content": B.symseq("content")},
-               target=[N + "__init__"])]
+               target=[N + "__init__"], overrides=OPEN)]
     for wd in (False, True):
-        cs.append(Case(H + "include_ips_exact_contract", f"0/1 record, delta={'symbolic' if wd else 'absent'}", shape(wd), target=[N + "__init__"], no_loop_specs=True))
-        cs.append(Case(H + "include_ips_any_contract", f"any records, delta={'symbolic' if wd else 'absent'}", shape(wd), target=[N + "__init__"]))
+        cs.append(Case(H + "include_ips_exact_contract", f"0/1 record, delta={'symbolic' if wd else 'absent'}", shape(wd), target=[N + "__init__"], no_loop_specs=True, overrides=OPEN))
+        cs.append(Case(H + "include_ips_any_contract", f"any records, delta={'symbolic' if wd else 'absent'}", shape(wd), target=[N + "__init__"], overrides=OPEN))
     cs.append(Case(H + "include_ips_neutral_contract", "any", shape_node, target=[N + "emit", N + "pc_after"]))
     return cs
 
